@@ -51,8 +51,59 @@ def extract():
     return kws, unraw
 
 
+def string_literals(src):
+    """The string literals of the non-test part of codegen.rs: a small scanner that knows line comments,
+    char literals / lifetimes, raw strings and ordinary strings; `{{` / `}}` of format strings undone."""
+    body = src.split("#[cfg(test)]")[0]
+    out, i, n = [], 0, len(body)
+    while i < n:
+        c = body[i]
+        if body.startswith("//", i):
+            j = body.find("\n", i); i = n if j < 0 else j
+        elif c == "r" and re.match(r'r#*"', body[i:]) and (i == 0 or not (body[i - 1].isalnum() or body[i - 1] == "_")):
+            h = len(re.match(r'r(#*)"', body[i:]).group(1))
+            j = body.find('"' + "#" * h, i + 2 + h)
+            out.append(body[i + 2 + h:j]); i = j + 1 + h
+        elif c == '"':
+            j, buf = i + 1, []
+            while j < n and body[j] != '"':
+                if body[j] == "\\":
+                    buf.append({"n": "\n", "t": "\t"}.get(body[j + 1], body[j + 1])); j += 2
+                else:
+                    buf.append(body[j]); j += 1
+            out.append("".join(buf)); i = j + 1
+        elif c == "'":
+            m = re.match(r"'(?:\\.|[^'\\])'", body[i:])
+            i += len(m.group(0)) if m else 1
+        else:
+            i += 1
+    return [l.replace("{{", "{").replace("}}", "}") for l in out]
+
+
+def unqualified_uses(src):
+    """Type-namespace items the EMITTED module text refers to without a path, read off the string
+    literals of codegen.rs: generic uses `Name<` not preceded by `::`, the names imported by an emitted
+    `use a::{X, Y};` / `use a::X;` that serde or zlink export as a type or trait (a derive macro alone
+    lives in the macro namespace), and literals that are exactly one capitalised identifier and are
+    produced by the type-mapping functions (`"String".to_string()`)."""
+    uses = []
+    body = src.split("#[cfg(test)]")[0]
+    for lit in string_literals(src):
+        for m in re.finditer(r"(?<![:\w])([A-Z][A-Za-z0-9]*)<", lit):
+            uses.append(m.group(1))
+        m = re.match(r"\s*use\s+([a-z_:]+)::\{([^}]*)\};", lit)
+        if m and m.group(1) == "serde":
+            uses += [x.strip() for x in m.group(2).split(",") if re.fullmatch(r"[A-Z]\w*", x.strip())]
+    for m in re.finditer(r'"([A-Z][A-Za-z0-9]*)"\s*\.to_string\(\)', body):
+        uses.append(m.group(1))
+    return sorted(set(uses))
+
+
 def main():
     kws, unraw = extract()
+    src = open(os.path.join(REPO, "zlink-codegen/src/codegen.rs")).read()
+    unq = string_list(src, "is_used_unqualified") or []
+    uses = unqualified_uses(src)
 
     def ql(l):
         return "[" + "; ".join('"%s"' % x for x in l) + "]"
@@ -70,6 +121,17 @@ Definition generator_keywords : list string :=
 Definition generator_unrawable : list string :=
   %s.
 
+(* the generator's list of custom-type identifiers that get a trailing underscore because the
+   generated code refers to an item of that name without a path (fn is_used_unqualified; empty when
+   the function is absent) *)
+Definition generator_unqualified : list string :=
+  %s.
+
+(* type-namespace items the EMITTED module text refers to without a path, read off the string
+   literals of codegen.rs (`Name<`, `use serde::{..}`, `"Name".to_string()`) *)
+Definition emitted_unqualified_uses : list string :=
+  %s.
+
 (* Rust Reference: strict keywords (edition 2021) *)
 Definition strict_keywords : list string :=
   %s.
@@ -83,14 +145,14 @@ Definition reference_keywords : list string := strict_keywords ++ reserved_keywo
 (* Rust Reference: keywords that cannot be raw identifiers *)
 Definition not_raw_keywords : list string :=
   %s.
-""" % (ql(kws), ql(unraw), ql(STRICT), ql(RESERVED), ql(NOT_RAW))
+""" % (ql(kws), ql(unraw), ql(unq), ql(uses), ql(STRICT), ql(RESERVED), ql(NOT_RAW))
     os.makedirs(os.path.dirname(OUT), exist_ok=True)
     old = open(OUT).read() if os.path.exists(OUT) else None
     if old != txt:
         open(OUT, "w").write(txt)
     missing = [k for k in STRICT + RESERVED if k not in kws]
-    print("keywords: generator=%d unrawable=%d reference=%d missing_from_generator=%s" % (
-        len(kws), len(unraw), len(STRICT + RESERVED), ",".join(missing) or "-"))
+    print("keywords: generator=%d unrawable=%d reference=%d missing_from_generator=%s unqualified=%s emitted_uses=%s" % (
+        len(kws), len(unraw), len(STRICT + RESERVED), ",".join(missing) or "-", ",".join(unq) or "-", ",".join(uses) or "-"))
 
 
 if __name__ == "__main__":
